@@ -12,7 +12,9 @@ import (
 	"bytes"
 	"encoding/hex"
 	"fmt"
+	"os"
 	"runtime"
+	"runtime/pprof"
 	"sort"
 	"strings"
 	"sync"
@@ -52,7 +54,8 @@ type caseStats struct {
 	feeBoundaryAccepted         int64
 	feeCases                    int64
 	fieldMutants, structMutants int64
-	noTamper                    int64
+	noTamper, carrier           int64
+	panics                      []string
 	para                        bool
 	drivers                     map[string]bool
 }
@@ -104,7 +107,11 @@ func (e *env) build(r *lib.Rng, n int, para string) ([]*member, *types.Transacti
 	nsign := r.Range(1, n)
 	var signers []*txmut.Signer
 	for i := 0; i < nsign; i++ {
-		signers = append(signers, txmut.NewSigner(r, lib.Pick(r, e.drivers)))
+		d := lib.Pick(r, e.drivers)
+		if d == "sm2" && r.Chance(60) { // pure-Go sm2 verification is ~20x slower than the rest
+			d = lib.Pick(r, e.drivers)
+		}
+		signers = append(signers, txmut.NewSigner(r, d))
 	}
 	ms := make([]*member, n)
 	txs := make([]*types.Transaction, n)
@@ -142,7 +149,7 @@ func (v verdict) accepted() bool {
 	return v.panicked == "" && ((v.checkErr == nil && v.signOK) || (v.carrierErr == nil && v.carrierSign))
 }
 
-func (e *env) judge(g *types.Transactions) (v verdict) {
+func (e *env) judge(g *types.Transactions, carrier bool) (v verdict) {
 	defer func() {
 		if r := recover(); r != nil {
 			v.panicked = fmt.Sprint(r)
@@ -154,6 +161,9 @@ func (e *env) judge(g *types.Transactions) (v verdict) {
 	}
 	// the form in which a group travels to the mempool / rpc
 	v.carrierErr = fmt.Errorf("no carrier")
+	if !carrier {
+		return
+	}
 	if c := g.Tx(); c != nil {
 		wire := types.Encode(c)
 		var c2 types.Transaction
@@ -230,7 +240,7 @@ func (e *env) runCase(c *lib.Ctx, idx int) (st caseStats, vs []viol) {
 		hs = append(hs, hex.EncodeToString(tx.Hash()))
 	}
 	st.fp = lib.Fingerprint(hs)
-	hv := e.judge(g)
+	hv := e.judge(g, true)
 	carrierSame := false
 	if ct := g.Tx(); ct != nil {
 		if gg, err := ct.GetTxGroup(); err == nil && gg != nil && proto.Equal(gg, g) {
@@ -254,7 +264,16 @@ func (e *env) runCase(c *lib.Ctx, idx int) (st caseStats, vs []viol) {
 			st.noTamper++
 			return
 		}
-		v := e.judge(mg)
+		// the carrier form runs the same checks on the re-decoded group: always for structural and fee mutants,
+		// for every 4th field mutant
+		withCarrier := !strings.HasPrefix(class, "field:") || st.mutants%4 == 0
+		v := e.judge(mg, withCarrier)
+		if withCarrier {
+			st.carrier++
+		}
+		if v.panicked != "" && len(st.panics) < 3 {
+			st.panics = append(st.panics, class+": "+v.panicked)
+		}
 		st.mutants++
 		st.perClass[class]++
 		switch {
@@ -424,7 +443,7 @@ func (e *env) runCase(c *lib.Ctx, idx int) (st caseStats, vs []viol) {
 			eq.Txs[0].Fee = required(eq)
 			resign(eq)
 		}
-		if eq.Txs[0].Fee == required(eq) && e.judge(eq).accepted() {
+		if eq.Txs[0].Fee == required(eq) && e.judge(eq, true).accepted() {
 			st.feeBoundaryAccepted++
 		}
 	}
@@ -445,6 +464,11 @@ func (e *env) runCase(c *lib.Ctx, idx int) (st caseStats, vs []viol) {
 }
 
 func run(c *lib.Ctx) {
+	if p := os.Getenv("VERIF_PPROF"); p != "" { // development aid only
+		f, _ := os.Create(p)
+		pprof.StartCPUProfile(f)
+		defer pprof.StopCPUProfile()
+	}
 	c.Rule("case i = one honest group (size cycles through 2,2,3,3,4,5,6,7,8,10,12,15,18,20,20; 30% parachain groups; members over 5 executors, payload sizes around the 1000-byte fee step, 5 expiry encodings, 1..n distinct signers over all keyed crypto drivers and two address formats) built by types.CreateTxGroup and signed per member; " +
 		"exhaustive mutants per group: all pair swaps/reverse/rotate, drop each, every prefix/suffix, insert (duplicate / attacker tx fitted with groupCount n and n+1) at every position, substitute each member (fitted attacker tx / other member / member of another valid group), splice, every descriptor-enumerated field mutation of every member incl. signature sub-fields, fee rules with honest re-signing; structural and field mutants are also tried after an attacker rebuild (RebuiltGroup + re-sign of attacker-owned members only). " +
 		"A mutant is accepted if Check==nil && CheckSign directly OR through the carrier form (group.Tx() encoded, decoded, TransactionCache.Check/CheckSign). " +
@@ -501,6 +525,13 @@ func run(c *lib.Ctx) {
 		c.Count("mutants_rejected_by_Check", st.byCheck)
 		c.Count("mutants_passing_Check_rejected_by_CheckSign", st.bySign)
 		c.Count("mutants_rejected_by_panic", st.byPanic)
+		c.Count("mutants_also_judged_in_carrier_form", st.carrier)
+		for _, p := range st.panics {
+			c.Seen("panic_messages", p)
+			if os.Getenv("VERIF_DEBUG") != "" {
+				fmt.Fprintln(os.Stderr, "panic:", p)
+			}
+		}
 		c.Count("structural_mutants", st.structMutants)
 		c.Count("field_mutants", st.fieldMutants)
 		c.Count("fee_rule_cases", st.feeCases)
